@@ -122,7 +122,7 @@ Print Assumptions C09_sender_kth.
    under its own 4, 5: a working session with a packet missing. *)
 Theorem C09_nonstrict_shift_exists :
   let n := scenario (cfg_of Client KDH false true false) (cfg_of Server KDH false true false)
-                    terrapin_script 0 in
+                    terrapin_script 0 0 0%nat in
   o_c n = Continue /\ o_s n = Continue /\
   tx_s n = [20; 0; 31; 1; 21; 2; 7; 3; 6; 4; 52; 5] /\
   rx_c n = [20; 0; 31; 1; 2; 2; 21; 3; 6; 4; 52; 5].
@@ -132,7 +132,7 @@ Print Assumptions C09_nonstrict_shift_exists.
 (* the same script against strict peers: MessageOrderError at the IGNORE *)
 Theorem C09_strict_same_script_aborts :
   let n := scenario (cfg_of Client KDH true true false) (cfg_of Server KDH true true false)
-                    terrapin_script 0 in
+                    terrapin_script 0 0 0%nat in
   o_c n = AbortMOE /\ rx_c n = [20; 0; 31; 1; 2; 2].
 Proof. exact strict_no_shift_same_script. Qed.
 Print Assumptions C09_strict_same_script_aborts.
@@ -155,6 +155,15 @@ Theorem C09_strict_sticky :
     seq_out (fst (send1 c st2 MSG_NEWKEYS)) = 0.
 Proof. exact strict_sticky. Qed.
 Print Assumptions C09_strict_sticky.
+
+(* boundary of C09_kexinit_not_first's roll-over argument, as exercised on the real code: server whose
+   inbound counter stands at 2^32 - 1, IGNORE inserted ahead of the client's KEXINIT: refused *)
+Theorem C09_rollover_boundary :
+  let n := scenario (cfg_of Client KDH true true false) (cfg_of Server KDH true true false)
+                    [(true, 0, 2)] 0 (SEQ_MOD - 1) 0%nat in
+  o_s n = AbortSSH /\ rx_s n = [] /\ kdone (n_s n) = false.
+Proof. exact rollover_boundary. Qed.
+Print Assumptions C09_rollover_boundary.
 
 (* ---- non-vacuity ---- *)
 (* the borrowed premise is satisfiable *)
@@ -196,7 +205,7 @@ Proof. vm_compute. repeat split; reflexivity. Qed.
 
 (* C09_strict_sticky's situation: strict agreed, then a re-key whose KEXINIT carries no kex-strict name *)
 Example C09_strict_sticky_example :
-  let n := scenario (cfg_of Client KDH true true false) (cfg_of Server KDH true true true) [] 2 in
+  let n := scenario (cfg_of Client KDH true true false) (cfg_of Server KDH true true true) [] 0 0 2%nat in
   o_c n = Continue /\ o_s n = Continue /\ agreed (n_c n) = true /\ agreed (n_s n) = true /\
   ep_in (n_c n) = 3 /\ seq_in (n_c n) = 2.
 Proof. vm_compute. repeat split; reflexivity. Qed.
